@@ -765,8 +765,11 @@ func (d *DeletingComposedResourceGarbageCollector) GarbageCollectComposedResourc
 		if err := d.client.Update(ctx, cd.Resource); resource.IgnoreNotFound(err) != nil {
 			return errors.Wrapf(err, errFmtCleanupLabelsCD, name, cd.Resource.GetObjectKind().GroupVersionKind().Kind, cd.Resource.GetName())
 		}
-		// Delete the composed resource.
-		if err := d.client.Delete(ctx, cd.Resource); resource.IgnoreNotFound(err) != nil {
+		// Delete the composed resource. We only want to delete the resource we
+		// observed: if it was deleted and another object was created with the
+		// same name in the meantime, that object is not ours to delete.
+		uid := cd.Resource.GetUID()
+		if err := d.client.Delete(ctx, cd.Resource, client.Preconditions{UID: &uid}); resource.IgnoreNotFound(err) != nil {
 			return errors.Wrapf(err, errFmtDeleteCD, name, cd.Resource.GetObjectKind().GroupVersionKind().Kind, cd.Resource.GetName())
 		}
 	}
